@@ -71,6 +71,6 @@ Chars == {j \in 1..Len(toks) : toks[j].k = "ch"}
 EachOnce == phase = "done" => \A j \in Chars : Cardinality({p \in 1..Len(out) : \E x \in 1..Len(out[p].idx) : out[p].idx[x] = j}) = 1
 RightLabel == phase = "done" => \A p \in 1..Len(out) : \A x \in 1..Len(out[p].idx) : out[p].lang = RefLang(out[p].idx[x])
 InOrder == phase = "done" => \A p \in 1..Len(out) : \A x \in 1..(Len(out[p].idx) - 1) : out[p].idx[x] < out[p].idx[x+1]
-Terminates == <>(phase = "done" \/ phase = "build")
+Terminates == (phase = "sect") ~> (phase = "done")
 Dump == phase = "done" => PrintT("@@" \o ToJson([toks |-> toks, parts |-> [p \in 1..Len(out) |-> [lang |-> out[p].lang, idx |-> out[p].idx]]]))
 =============================================================================
